@@ -8,6 +8,7 @@ import Driver.Rules
 import Driver.BitIO
 import Driver.Expr
 import Driver.Float
+import Driver.RootInfer
 /-! Correspondence driver: `lake env lean --run Driver/Main.lean <suite>`; one JSON case per input line,
     one JSON outcome per output line (`{"id":…, …}` or `{"id":…,"err":…}`). -/
 open Lean
@@ -27,6 +28,7 @@ def dispatch (suite : String) (j : Json) : Except String Json :=
   | "floatconv" => DriverFloat.handle j
   | "expr" | "const" => DriverExpr.handle j
   | "garbage" => DriverExpr.handleGarbage j
+  | "rootinfer" => DriverRootInfer.handle j
   | s => throw s!"unknown suite {s}"
 
 partial def loop (suite : String) (h : IO.FS.Stream) (out : IO.FS.Stream) : IO Unit := do
